@@ -96,11 +96,11 @@ class Histories(Family):
     def configs(self, tier):
         ops = domain_ops("quick")
         out = []
-        maxlen = 2 if tier == "quick" else 3
+        maxlen = 2 if tier == "quick" else 4
         L = 3
         for k in range(0, maxlen + 1):
             for seq in itertools.product(range(len(ops)), repeat=k):
-                if k == 3 and (sum(seq) % 7):      # thorough: a seventh of the length-3 sequences
+                if k == 4 and (sum(seq) + 3 * seq[0]) % 17:      # thorough: a seventeenth of the length-4 sequences
                     continue
                 names = [ops[i] for i in seq]
                 if sum(1 for d in names if d["op"] == "repeat") > 1:
@@ -117,6 +117,10 @@ class Histories(Family):
         w = st.w
         X, Y = list(st.caller_x_terms), list(st.caller_y_terms)
         for i, d in enumerate(seq):
+            if len(X) < 2:
+                # truncation may leave a single sample: no interval, no period, zero range - the remaining
+                # operations have no admissible arguments; the claims below still cover the prefix
+                break
             f = apply_domain(ctx, w, d, tag="h%d_" % i)
             X, Y = f(X, Y)
         info = {"seq": [d["op"] for d in seq]}
@@ -185,7 +189,7 @@ META = {
                    "match, must reproduce the transformed averages; shift/scale commute with the pipeline.",
     "bounds": {"quick": "states of 3..4 points (reshaped working series +2); histories: all sequences of length <= 2 over "
                         "14 operation variants on 3 points, then recreate(n=2)+match with 3 strategies x 2 rules",
-               "thorough": "states of 3..6 points; histories up to length 3 (a seventh of the length-3 sequences)"},
+               "thorough": "states of 3..6 points; ALL histories up to length 3 over the 14-operation alphabet (symbolic arguments); a seventeenth of the length-4 histories; normalisation from states of <= 5 points"},
     "outside": ["series longer than the bound inside a step", "float rounding",
                 "fields added to Weaver in the future are reported by the claim 'state-has-only-known-fields'"],
     "assumptions": ["x strictly increasing; scale_x > 0, scale_y != 0; normalise on non-constant values with lo < hi; "
